@@ -333,6 +333,7 @@ var errCodeNames = map[template.ErrorCode]string{
 }
 
 func classify(err error) string {
+	_ = err.Error() // formatting the error is part of the API surface: it must not panic either
 	var te *template.Error
 	if errors.As(err, &te) {
 		if n, ok := errCodeNames[te.ErrorCode]; ok {
@@ -535,15 +536,20 @@ func (w *realWorld) step(line string) (res string) {
 	return "bad-step"
 }
 
-// runHistoryReal interprets a history against the real package. After a panic the remaining steps are skipped.
-func runHistoryReal(hist string) string {
+func isExecOp(op string) bool {
+	return op == "exec" || op == "exect" || op == "exechtml" || op == "execthtml"
+}
+
+func isDefOp(op string) bool {
+	return op == "new" || op == "assocnew" || op == "parse" || op == "clone" || op == "lookup" || op == "csp"
+}
+
+// runLines runs the given step lines on a fresh real world; returns all results.
+func runLines(lines []string) []string {
 	w := &realWorld{h: map[int]*template.Template{}}
 	var out []string
 	dead := false
-	for _, line := range strings.Split(hist, "\n") {
-		if strings.TrimSpace(line) == "" {
-			continue
-		}
+	for _, line := range lines {
 		if dead {
 			out = append(out, "skipped")
 			continue
@@ -554,7 +560,143 @@ func runHistoryReal(hist string) string {
 			dead = true
 		}
 	}
-	return strings.Join(out, ";")
+	return out
+}
+
+// setIDs assigns a set id to every handle, syntactically: new → fresh id; assocnew/lookup → the source's id;
+// clone (when it succeeded) → fresh id. Returns for every step the set id of the handle it operates on.
+func stepSets(lines, res []string) []int {
+	set := map[int]int{}
+	name := map[int]string{}
+	next := 0
+	out := make([]int, len(lines))
+	for i, l := range lines {
+		f := strings.Fields(l)
+		num := func(s string) int { var n int; fmt.Sscan(s, &n); return n }
+		str := func(s string) string { _, a, _ := parseOpLine("x " + s); return a[0] }
+		h := num(f[1])
+		out[i] = set[h]
+		switch f[0] {
+		case "new":
+			set[h] = next
+			name[h] = str(f[2])
+			out[i] = next
+			next++
+		case "assocnew":
+			// `*existing = *emptyTmpl`: every handle that denotes the old template of that name now denotes an
+			// empty template of a brand-new set
+			s0, n := set[h], str(f[2])
+			var hs []int
+			for x := range set {
+				hs = append(hs, x)
+			}
+			sort.Ints(hs)
+			for _, x := range hs {
+				if set[x] == s0 && name[x] == n {
+					set[x] = next
+					next++
+				}
+			}
+			set[num(f[3])] = s0
+			name[num(f[3])] = n
+		case "lookup":
+			if res[i] != "nil" {
+				set[num(f[3])] = set[h]
+				name[num(f[3])] = str(f[2])
+			}
+		case "clone":
+			if res[i] == "ok" {
+				set[num(f[2])] = next
+				name[num(f[2])] = name[h]
+				next++
+			}
+		}
+	}
+	return out
+}
+
+func handleOf(line string) int {
+	var n int
+	fmt.Sscan(strings.Fields(line)[1], &n)
+	return n
+}
+
+// bindStepOf: index of the last step before i that binds handle h (0 if none)
+func bindStepOf(lines []string, i, h int) int {
+	for j := i - 1; j >= 0; j-- {
+		f := strings.Fields(lines[j])
+		var x int
+		switch f[0] {
+		case "new":
+			fmt.Sscan(f[1], &x)
+		case "assocnew", "lookup":
+			fmt.Sscan(f[3], &x)
+		case "clone":
+			fmt.Sscan(f[2], &x)
+		default:
+			continue
+		}
+		if x == h {
+			return j
+		}
+	}
+	return 0
+}
+
+// annotate adds to every exec step `~<fresh>~<frozen>`: the result of the same call on a freshly built
+// set with (a) all definition steps that succeeded so far (C06) and (b) only those before the first
+// execution of the step's set (C07).
+func annotate(lines, res []string) []string {
+	sets := stepSets(lines, res)
+	firstExec := map[int]int{}
+	for i, l := range lines {
+		if isExecOp(strings.Fields(l)[0]) {
+			if _, ok := firstExec[sets[i]]; !ok {
+				firstExec[sets[i]] = i
+			}
+		}
+	}
+	out := make([]string, len(res))
+	copy(out, res)
+	for i, l := range lines {
+		op := strings.Fields(l)[0]
+		if !isExecOp(op) || res[i] == "skipped" {
+			continue
+		}
+		var all, frozen []string
+		fe := firstExec[sets[i]]
+		for j := 0; j < i; j++ {
+			opj := strings.Fields(lines[j])[0]
+			if !isDefOp(opj) || strings.HasPrefix(res[j], "err") || res[j] == "panic" || res[j] == "skipped" || res[j] == "timeout" {
+				continue
+			}
+			all = append(all, lines[j])
+			if j < fe {
+				frozen = append(frozen, lines[j])
+			}
+		}
+		ra := runLines(append(all, l))
+		frozenRes := res[i]
+		// the frozen reference is only defined for handles that existed when the set froze
+		if !(bindStepOf(lines, i, handleOf(l)) >= fe && fe < i) {
+			rf := runLines(append(frozen, l))
+			frozenRes = rf[len(rf)-1]
+		}
+		out[i] = res[i] + "~" + ra[len(ra)-1] + "~" + frozenRes
+	}
+	return out
+}
+
+// runHistoryReal interprets a history against the real package. After a panic the remaining steps are skipped.
+func runHistoryReal(hist string) string {
+	var lines []string
+	for _, line := range strings.Split(hist, "\n") {
+		if strings.TrimSpace(line) != "" {
+			lines = append(lines, line)
+		}
+	}
+	res := runLines(lines)
+	return strings.Join(annotate(lines, res), ";")
 }
 
 func init() {
@@ -605,4 +747,4 @@ func (hb *histBuilder) add(s Step) string {
 
 func (hb *histBuilder) bound(h int) bool { return hb.w.h[h] != nil }
 func (hb *histBuilder) hist() string     { return strings.Join(hb.lines, "\n") }
-func (hb *histBuilder) result() string   { return strings.Join(hb.res, ";") }
+func (hb *histBuilder) result() string   { return strings.Join(annotate(hb.lines, hb.res), ";") }
